@@ -275,3 +275,215 @@ Proof.
 Qed.
 
 End ViewProofs.
+
+(* ------------------------------------------------------------------------- *)
+(* ownership ledger and the boxed conversions *)
+
+Section Ledger.
+
+Lemma forget_spec h1 h2 a bytes : ~ In a (addrs h1) ->
+  forget (h1 ++ (a, bytes, true) :: h2) a bytes = Ok (h1 ++ (a, bytes, false) :: h2).
+Proof.
+  induction h1 as [|[[a' b'] o] h1 IH]; intros Hn.
+  - cbn. now rewrite !Nat.eqb_refl.
+  - cbn [app forget]. cbn in Hn. destruct (Nat.eqb_spec a' a) as [->|Hne]; [tauto|].
+    rewrite IH by tauto. reflexivity.
+Qed.
+
+Lemma from_raw_spec h1 h2 a bytes : ~ In a (addrs h1) ->
+  from_raw (h1 ++ (a, bytes, false) :: h2) a bytes = Ok (h1 ++ (a, bytes, true) :: h2).
+Proof.
+  induction h1 as [|[[a' b'] o] h1 IH]; intros Hn.
+  - cbn. now rewrite !Nat.eqb_refl.
+  - cbn [app from_raw]. cbn in Hn. destruct (Nat.eqb_spec a' a) as [->|Hne]; [tauto|].
+    rewrite IH by tauto. reflexivity.
+Qed.
+
+Lemma drop_box_spec h1 h2 a bytes : ~ In a (addrs h1) ->
+  drop_box (h1 ++ (a, bytes, true) :: h2) a bytes = Ok (h1 ++ h2).
+Proof.
+  induction h1 as [|[[a' b'] o] h1 IH]; intros Hn.
+  - cbn. now rewrite !Nat.eqb_refl.
+  - cbn [app drop_box]. cbn in Hn. destruct (Nat.eqb_spec a' a) as [->|Hne]; [tauto|].
+    rewrite IH by tauto. reflexivity.
+Qed.
+
+Lemma live_bytes_app h1 h2 : live_bytes (h1 ++ h2) = live_bytes h1 + live_bytes h2.
+Proof.
+  induction h1 as [|b h1 IH]; [reflexivity|].
+  change (snd (fst b) + live_bytes (h1 ++ h2) = snd (fst b) + live_bytes h1 + live_bytes h2). lia.
+Qed.
+
+Lemma live_bytes_mid h1 h2 a bytes o :
+  live_bytes (h1 ++ (a, bytes, o) :: h2) = live_bytes (h1 ++ h2) + bytes.
+Proof.
+  rewrite !live_bytes_app. change (live_bytes ((a, bytes, o) :: h2)) with (bytes + live_bytes h2). lia.
+Qed.
+
+(* success: the one block changes hands and comes back; the ledger is as before *)
+Lemma boxed_reuse N sz h1 h2 a L : 1 <= N -> Nat.divide N L -> ~ In a (addrs h1) ->
+  let h := h1 ++ (a, L * sz, true) :: h2 in
+  from_boxed_sample_slice N sz h {| addr := a; len := L |} = Ok (h, Some {| addr := a; len := L / N |}) /\
+  L / N * (N * sz) = L * sz.
+Proof.
+  intros HN HD Hn h. assert (HN0 : N <> 0) by lia.
+  apply (mod0_divide N L HN0) in HD. pose proof (div_exact_mul N L HN0 HD) as HM.
+  assert (HB : L / N * (N * sz) = L * sz) by (rewrite Nat.mul_assoc, HM; reflexivity).
+  split; [|exact HB].
+  unfold from_boxed_sample_slice, h. cbv zeta. cbn [addr len]. rewrite HD. cbn [Nat.eqb negb].
+  rewrite forget_spec by exact Hn. cbn [bind].
+  unfold from_sample_slice_mut_ref. cbv zeta. cbn [addr len]. rewrite HD. cbn [Nat.eqb addr len].
+  rewrite HB, from_raw_spec by exact Hn. reflexivity.
+Qed.
+
+(* failure: the block is freed; nothing of it remains in the ledger *)
+Lemma boxed_fail_releases N sz h1 h2 a L : 1 <= N -> ~ Nat.divide N L -> ~ In a (addrs h1) ->
+  from_boxed_sample_slice N sz (h1 ++ (a, L * sz, true) :: h2) {| addr := a; len := L |} = Ok (h1 ++ h2, None).
+Proof.
+  intros HN HD Hn. assert (HN0 : N <> 0) by lia.
+  rewrite <- (mod0_divide N L HN0) in HD.
+  unfold from_boxed_sample_slice. cbv zeta. cbn [addr len].
+  destruct (Nat.eqb_spec (L mod N) 0) as [H|H]; [contradiction|]. cbn [negb].
+  rewrite drop_box_spec by exact Hn. reflexivity.
+Qed.
+
+(* frames -> samples, boxed: always succeeds, same block, same byte size *)
+Lemma boxed_back N sz h1 h2 a K : ~ In a (addrs h1) ->
+  from_boxed_frame_slice N sz (h1 ++ (a, K * (N * sz), true) :: h2) {| addr := a; len := K |} =
+  Ok (h1 ++ (a, K * N * sz, true) :: h2, {| addr := a; len := K * N |}) /\ K * N * sz = K * (N * sz).
+Proof.
+  intros Hn. assert (HB : K * N * sz = K * (N * sz)) by (now rewrite Nat.mul_assoc).
+  split; [|exact HB].
+  unfold from_boxed_frame_slice. cbv zeta. cbn [addr len].
+  rewrite forget_spec by exact Hn. cbn [bind]. rewrite HB, from_raw_spec by exact Hn. reflexivity.
+Qed.
+
+End Ledger.
+
+(* ------------------------------------------------------------------------- *)
+(* in-place operations *)
+
+Section OpsProofs.
+Context {FA FB AMP : Type}.
+
+Lemma nth_error_app_mid {X} (pre : list X) x t k : k = length pre -> nth_error (pre ++ x :: t) k = Some x.
+Proof. intros ->. induction pre; simpl; auto. Qed.
+
+Lemma set_nth_app_mid {X} (pre : list X) x t z k : k = length pre -> set_nth k z (pre ++ x :: t) = pre ++ z :: t.
+Proof. intros ->. induction pre; simpl; congruence. Qed.
+
+Lemma map2_length {X Y Z} (f : X -> Y -> Z) a b : length a = length b -> length (map2 f a b) = length a.
+Proof. intros H. unfold map2. rewrite map_length, combine_length. lia. Qed.
+
+Lemma map2_nth {X Y Z} (f : X -> Y -> Z) a b i x y :
+  nth_error a i = Some x -> nth_error b i = Some y -> nth_error (map2 f a b) i = Some (f x y).
+Proof.
+  revert b i; induction a as [|x0 a IH]; intros [|y0 b] [|i]; simpl; try discriminate.
+  - intros [= ->] [= ->]. reflexivity.
+  - apply IH.
+Qed.
+
+Lemma zip_loop_spec (f : FA -> FB -> FA) (a : list FA) : forall pre_b b pre,
+  length pre = length pre_b -> length a = length b ->
+  zip_loop f (pre_b ++ b) (length a) (length pre) (pre ++ a) = (pre ++ map2 f a b, Ok tt).
+Proof.
+  induction a as [|x a IH]; intros pre_b b pre Hp Hl.
+  - destruct b; [|discriminate]. reflexivity.
+  - destruct b as [|y b]; [discriminate|]. cbn [length zip_loop]. unfold get_unchecked.
+    rewrite (nth_error_app_mid pre x a _ eq_refl), (nth_error_app_mid pre_b y b _ Hp).
+    rewrite (set_nth_app_mid pre x a _ _ eq_refl).
+    destruct (Nat.ltb_spec (length pre) (length (pre ++ x :: a))) as [_|H];
+      [|rewrite app_length in H; simpl in H; lia].
+    replace (pre_b ++ y :: b) with ((pre_b ++ [y]) ++ b) by (now rewrite <- app_assoc).
+    replace (pre ++ f x y :: a) with ((pre ++ [f x y]) ++ a) by (now rewrite <- app_assoc).
+    replace (S (length pre)) with (length (pre ++ [f x y])) by (rewrite app_length; simpl; lia).
+    rewrite IH.
+    + rewrite <- app_assoc. reflexivity.
+    + rewrite !app_length. simpl. lia.
+    + simpl in Hl. lia.
+Qed.
+
+(* equal lengths: the loop is safe (no unchecked access leaves the slices) and
+   the destination becomes the element-wise image *)
+Lemma zip_map_spec (f : FA -> FB -> FA) a b : length a = length b ->
+  zip_map_in_place f a b = (map2 f a b, Ok tt).
+Proof.
+  intros H. unfold zip_map_in_place, zip_map_in_place_unchecked. rewrite H, Nat.eqb_refl, <- H.
+  exact (zip_loop_spec f a [] b [] eq_refl H).
+Qed.
+
+(* unequal lengths: the assertion fires and the destination is what it was *)
+Lemma zip_map_mismatch (f : FA -> FB -> FA) a b : length a <> length b ->
+  zip_map_in_place f a b = (a, Panic PAssert).
+Proof.
+  intros H. unfold zip_map_in_place. destruct (Nat.eqb_spec (length a) (length b)); [contradiction|reflexivity].
+Qed.
+
+(* why the assertion is needed: without it a longer destination reads past the source *)
+Lemma unchecked_short_source_UB (f : FA -> FB -> FA) a b : length b < length a ->
+  snd (zip_map_in_place_unchecked f a b) = UB.
+Proof.
+  unfold zip_map_in_place_unchecked.
+  assert (G : forall (b : list FB) pre_b pre (a : list FA), length pre = length pre_b -> length b < length a ->
+    snd (zip_loop f (pre_b ++ b) (length a) (length pre) (pre ++ a)) = UB).
+  { clear a b. induction b as [|y b IH]; intros pre_b pre a Hp Hl.
+    - destruct a as [|x a]; [simpl in Hl; lia|]. cbn [length zip_loop]. unfold get_unchecked.
+      rewrite (nth_error_app_mid pre x a _ eq_refl), app_nil_r.
+      assert (E : nth_error pre_b (length pre) = None) by (apply nth_error_None; lia).
+      rewrite E. reflexivity.
+    - destruct a as [|x a]; [simpl in Hl; lia|]. cbn [length zip_loop]. unfold get_unchecked.
+      rewrite (nth_error_app_mid pre x a _ eq_refl), (nth_error_app_mid pre_b y b _ Hp).
+      rewrite (set_nth_app_mid pre x a _ _ eq_refl).
+      destruct (Nat.ltb_spec (length pre) (length (pre ++ x :: a))) as [_|H]; [|reflexivity].
+      replace (pre_b ++ y :: b) with ((pre_b ++ [y]) ++ b) by (now rewrite <- app_assoc).
+      replace (pre ++ f x y :: a) with ((pre ++ [f x y]) ++ a) by (now rewrite <- app_assoc).
+      replace (S (length pre)) with (length (pre ++ [f x y])) by (rewrite app_length; simpl; lia).
+      apply IH; [rewrite !app_length; simpl; lia|simpl in Hl; lia]. }
+  intros H. exact (G b [] [] a eq_refl H).
+Qed.
+
+Lemma map_in_place_spec (g : FA -> FA) a : map_in_place g a = map g a.
+Proof. induction a; simpl; congruence. Qed.
+
+Lemma equilibrium_spec (e : FA) a : equilibrium e a = map (fun _ => e) a.
+Proof. apply map_in_place_spec. Qed.
+
+Lemma equilibrium_repeat (e : FA) a : equilibrium e a = repeat e (length a).
+Proof. rewrite equilibrium_spec. induction a; simpl; congruence. Qed.
+
+Lemma add_in_place_spec (add_amp : FA -> FB -> FA) a b : length a = length b ->
+  add_in_place add_amp a b = (map2 add_amp a b, Ok tt).
+Proof. intros H. unfold add_in_place. now rewrite zip_map_spec. Qed.
+
+Lemma add_with_amp_spec (add_amp : FA -> FB -> FA) (mul_amp : FB -> AMP -> FB) a b amp : length a = length b ->
+  add_in_place_with_amp_per_channel add_amp mul_amp a b amp =
+  (map2 (fun x y => add_amp x (mul_amp y amp)) a b, Ok tt).
+Proof. intros H. unfold add_in_place_with_amp_per_channel. now rewrite zip_map_spec. Qed.
+
+Lemma map2_snd {X} (a b : list X) : length a = length b -> map2 (fun _ y => y) a b = b.
+Proof.
+  revert b; induction a as [|x a IH]; intros [|y b] H; simpl in *; try discriminate; auto.
+  unfold map2 in *. simpl. rewrite IH by lia. reflexivity.
+Qed.
+
+End OpsProofs.
+
+Lemma write_spec {F} (a b : list F) : length a = length b -> write a b = (b, Ok tt).
+Proof. intros H. unfold write. rewrite zip_map_spec by exact H. now rewrite map2_snd. Qed.
+
+Lemma write_mismatch {F} (a b : list F) : length a <> length b -> write a b = (a, Panic PAssert).
+Proof. intros H. unfold write. now apply zip_map_mismatch. Qed.
+
+(* shared, mutable and boxed conversions of the same allocation yield the same reference *)
+Lemma boxed_same_view {A} N sz h1 h2 (m : mem A) : 1 <= N ->
+  Nat.divide N (length (cells m)) -> ~ In (base m) (addrs h1) ->
+  let h := h1 ++ (base m, length (cells m) * sz, true) :: h2 in
+  exists fr fs, to_frame_slice N m = Ok (Some (fr, fs)) /\ to_frame_slice_mut N m = Ok (Some (fr, fs)) /\
+                to_boxed_frame_slice N sz h (sample_ref m) = Ok (h, Some fr).
+Proof.
+  intros HN HD Hn h. assert (HN0 : N <> 0) by lia.
+  exists (whole_frames N m), (chunks N (length (cells m) / N) (cells m)).
+  change (to_frame_slice_mut N m) with (to_frame_slice N m). rewrite (to_frame_slice_spec N m HN0).
+  rewrite (proj2 (mod0_divide N _ HN0) HD). cbn [Nat.eqb]. split; [reflexivity|split; [reflexivity|]].
+  exact (proj1 (boxed_reuse N sz h1 h2 (base m) (length (cells m)) HN HD Hn)).
+Qed.
